@@ -22,172 +22,10 @@
 // executes one is reported as BRANCH, because then the printed term would not describe the
 // computation for every scalar value.
 
-// ---- every standard / boost header used by the library or by this file comes FIRST, so that
-// ---- the access-specifier defines below cannot reach libstdc++ or boost.
-#include <boost/multiprecision/cpp_int.hpp>
-
-#include <algorithm>
-#include <array>
-#include <cstddef>
-#include <cstdint>
-#include <cstdio>
-#include <exception>
-#include <functional>
-#include <initializer_list>
-#include <iostream>
-#include <iterator>
-#include <limits>
-#include <memory>
-#include <optional>
-#include <sstream>
-#include <stdexcept>
-#include <string>
-#include <type_traits>
-#include <utility>
-#include <vector>
-
-// ---------------------------------------------------------------------------
-// Sym
-// ---------------------------------------------------------------------------
-using BigInt = boost::multiprecision::cpp_int;
-using Rat = boost::multiprecision::cpp_rational;
-
-struct Node {
-  enum Kind { VAR, CONST, UNINIT, ADD, SUB, MUL, DIV, NEG };
-  Kind kind;
-  std::string name;  // VAR
-  BigInt value;      // CONST
-  std::shared_ptr<const Node> l, r;
-};
-using NodeP = std::shared_ptr<const Node>;
-
-struct SymGlobals {
-  // comparisons executed since the last reset, as text
-  std::vector<std::string> comparisons;
-  // a shadow value could not be computed (division by a zero shadow)
-  bool shadow_trouble = false;
-};
-static SymGlobals g_sym;
-
-static void print_node(std::ostream &os, const NodeP &n, bool &has_uninit) {
-  switch (n->kind) {
-    case Node::VAR: os << "(v " << n->name << ")"; return;
-    case Node::CONST: os << "(c " << n->value.str() << ")"; return;
-    case Node::UNINIT: has_uninit = true; os << "(u)"; return;
-    case Node::NEG:
-      os << "(neg ";
-      print_node(os, n->l, has_uninit);
-      os << ")";
-      return;
-    default: break;
-  }
-  const char *op = n->kind == Node::ADD   ? "add"
-                   : n->kind == Node::SUB ? "sub"
-                   : n->kind == Node::MUL ? "mul"
-                                          : "div";
-  os << "(" << op << " ";
-  print_node(os, n->l, has_uninit);
-  os << " ";
-  print_node(os, n->r, has_uninit);
-  os << ")";
-}
-
-class Sym {
-  NodeP _n;
-  Rat _shadow;  // ONLY used to answer comparisons
-
-  Sym(NodeP n, Rat s) : _n(std::move(n)), _shadow(std::move(s)) {}
-
-  static NodeP mk(Node::Kind k, NodeP l, NodeP r = nullptr) {
-    auto p = std::make_shared<Node>();
-    p->kind = k;
-    p->l = std::move(l);
-    p->r = std::move(r);
-    return p;
-  }
-  static Sym bin(Node::Kind k, const Sym &a, const Sym &b) {
-    Rat s;
-    switch (k) {
-      case Node::ADD: s = a._shadow + b._shadow; break;
-      case Node::SUB: s = a._shadow - b._shadow; break;
-      case Node::MUL: s = a._shadow * b._shadow; break;
-      default:
-        if (b._shadow == 0) {
-          g_sym.shadow_trouble = true;
-          s = Rat(BigInt("104729"), BigInt("7919"));
-        } else {
-          s = a._shadow / b._shadow;
-        }
-    }
-    return Sym(mk(k, a._n, b._n), std::move(s));
-  }
-  static bool cmp(const char *op, const Sym &a, const Sym &b, bool answer) {
-    g_sym.comparisons.push_back(a.str() + " " + op + " " + b.str());
-    return answer;
-  }
-
- public:
-  // default construction: the scalar has NO documented value
-  Sym() : _shadow(Rat(BigInt("982451653"), BigInt("1000003"))) {
-    auto p = std::make_shared<Node>();
-    p->kind = Node::UNINIT;
-    _n = std::move(p);
-  }
-  Sym(const Sym &) = default;
-  Sym(Sym &&) = default;
-  Sym &operator=(const Sym &) = default;
-  Sym &operator=(Sym &&) = default;
-
-  // static_cast<T>(i) for a built-in integer i
-  template <typename I, std::enable_if_t<std::is_integral_v<I>, bool> = true>
-  explicit Sym(I i) {
-    auto p = std::make_shared<Node>();
-    p->kind = Node::CONST;
-    if constexpr (std::is_unsigned_v<I>) {
-      p->value = BigInt(static_cast<unsigned long long>(i));
-    } else {
-      p->value = BigInt(static_cast<long long>(i));
-    }
-    _shadow = Rat(p->value);
-    _n = std::move(p);
-  }
-  // no floating point, ever
-  template <typename D, std::enable_if_t<std::is_floating_point_v<D>, bool> = true>
-  Sym(D) = delete;
-
-  // a named variable; the shadow value is used for comparisons only
-  static Sym var(const std::string &name, const Rat &shadow) {
-    auto p = std::make_shared<Node>();
-    p->kind = Node::VAR;
-    p->name = name;
-    return Sym(std::move(p), shadow);
-  }
-
-  std::string str(bool *has_uninit = nullptr) const {
-    std::ostringstream os;
-    bool u = false;
-    print_node(os, _n, u);
-    if (has_uninit && u) *has_uninit = true;
-    return os.str();
-  }
-
-  friend Sym operator+(const Sym &a, const Sym &b) { return bin(Node::ADD, a, b); }
-  friend Sym operator-(const Sym &a, const Sym &b) { return bin(Node::SUB, a, b); }
-  friend Sym operator*(const Sym &a, const Sym &b) { return bin(Node::MUL, a, b); }
-  friend Sym operator/(const Sym &a, const Sym &b) { return bin(Node::DIV, a, b); }
-  Sym operator-() const { return Sym(mk(Node::NEG, _n), -_shadow); }
-  Sym &operator+=(const Sym &o) { return *this = bin(Node::ADD, *this, o); }
-  Sym &operator-=(const Sym &o) { return *this = bin(Node::SUB, *this, o); }
-  Sym &operator*=(const Sym &o) { return *this = bin(Node::MUL, *this, o); }
-  Sym &operator/=(const Sym &o) { return *this = bin(Node::DIV, *this, o); }
-
-  friend bool operator==(const Sym &a, const Sym &b) { return cmp("==", a, b, a._shadow == b._shadow); }
-  friend bool operator!=(const Sym &a, const Sym &b) { return cmp("!=", a, b, a._shadow != b._shadow); }
-  friend bool operator<(const Sym &a, const Sym &b) { return cmp("<", a, b, a._shadow < b._shadow); }
-  friend bool operator<=(const Sym &a, const Sym &b) { return cmp("<=", a, b, a._shadow <= b._shadow); }
-  friend bool operator>(const Sym &a, const Sym &b) { return cmp(">", a, b, a._shadow > b._shadow); }
-  friend bool operator>=(const Sym &a, const Sym &b) { return cmp(">=", a, b, a._shadow >= b._shadow); }
-};
+// ---- every standard / boost header used by the library or by this file, and the scalar type Sym,
+// ---- come FIRST (cpp/symkern_sym.h), so that the access-specifier defines below cannot reach
+// ---- libstdc++ or boost.
+#include "symkern_sym.h"
 
 // ---- the library under test, private members reachable ---------------------------------------
 #define private public
